@@ -110,8 +110,8 @@ class State:
         s.finals = list(self.finals)
         return s
 
-    def log_mut(self, ref):
-        self.ghost['mut'] = self.ghost.get('mut', frozenset()) | {ref}
+    def log_mut(self, ref, kind='write'):
+        self.ghost['mut'] = self.ghost.get('mut', frozenset()) | {(ref, kind)}
 
     def assume(self, *fs):
         for f in fs:
@@ -682,8 +682,11 @@ class Engine:
                     continue
                 if isinstance(recv, D):
                     s3 = s2.clone()
-                    s3.dicts[recv.ref] = s3.dicts[recv.ref].store(self.as_int(k), self.as_hv(s3, v))
+                    old = s3.dicts[recv.ref]
+                    s3.dicts[recv.ref] = old.store(self.as_int(k), self.as_hv(s3, v))
                     s3.log_mut(recv.ref)
+                    if hasattr(self.contract, 'on_dict_mutation'):
+                        self.contract.on_dict_mutation(self, s3, recv.ref, old, s3.dicts[recv.ref], tgt)
                     outs.append(s3)
                 else:
                     raise OutOfSubset("setitem", tgt)
